@@ -251,6 +251,20 @@ func probeSortedMap(rd sstables.SSTableReaderI, sorted []kv, probes [][]byte, lo
 	} else if got, err := drain(it, len(sorted)+3); err != nil || !kvsEq(got, sorted) {
 		add("", "Scan()=%s,%v want %s", kvsStr(got), err, kvsStr(sorted))
 	}
+	// scans are independent of one another: a scan that is abandoned after two pairs, then two further complete ones
+	*evals += 3
+	if it0, err := rd.Scan(); err == nil {
+		it0.Next()
+		it0.Next()
+	}
+	for round := 2; round <= 3; round++ {
+		it, err := rd.Scan()
+		if err != nil {
+			add("", "Scan() #%d error %v", round, err)
+		} else if got, err := drain(it, len(sorted)+3); err != nil || !kvsEq(got, sorted) {
+			add("", "Scan() #%d (after an abandoned and %d complete scans of the same reader)=%s,%v want %s", round, round-1, kvsStr(got), err, kvsStr(sorted))
+		}
+	}
 	for _, p := range probes {
 		*evals++
 		it, err := rd.ScanStartingAt(p)
